@@ -203,16 +203,15 @@ class C02(Prop):
             "spellings, leading zeros, v, white space, implicit post) of structures drawn with near neighbours "
             "(epoch x trailing zeros x pre/post/dev x mixed local segments), plus ~25% token/character damage; "
             "non-trivial = accepted by the implementation; distinct = distinct protocol lines")
-    trusted = ["CPython re's leftmost-greedy capture choice is mirrored by the hand-written scanner V.scan; the tie is "
-               "this correspondence (components) plus 'ver.accept' (scanner acceptance vs the regex regenerated from "
-               "Version._regex, on the malformed stream) — C12 proves that regex equal to PEP 440 Appendix B",
+    trusted = ["CPython re's leftmost-greedy capture choice (which text lands in which group) is mirrored by the "
+               "hand-written scanner V.scan; the tie for the components is this correspondence. Acceptance is proved: "
+               "V.scan accepts s <=> the regex regenerated from Version._regex accepts s, for every string "
+               "(C12.scan_accepts_iff_source_regex, via C12.scan_accepts_iff_spec_rx and C12.version_language); "
+               "'ver.accept' stays as a run-time cross-check of the same statement on the malformed stream",
                "PkgModel/Spec/Spelling.lean as the reading of 'PEP 440 reading of that string with every alternate "
                "spelling normalised' (parse tree of the Appendix B grammar, render, meaning, normalise)",
                "int()/str() on ASCII digit strings below sys.get_int_max_str_digits() (modelled by Py.undec / Py.dec)"]
-    partial = ["'V.scan accepts s  <=>  the regenerated Version._regex matches s' is compared on every run (op ver.accept) "
-               "but not proved; what is proved is V.scan accepts s <=> s is the rendering of a valid Spelling "
-               "(C02.components_are_pep440_reading)",
-               "numeric components longer than the interpreter's int/str digit limit are in the language and in the "
+    partial = ["numeric components longer than the interpreter's int/str digit limit are in the language and in the "
                "theorems, but CPython >= 3.11 cannot construct them (known finding, law long_numeric_component)"]
     budget = {"quick": (12000, 10000), "thorough": (600000, 400000)}
 
